@@ -10,8 +10,9 @@ def subharnesses(tier):
         worlds = [('T1', 1, 3, 'all'), ('T2', 1, 3, 'none'),
                   ('T1', 2, 3, 'none')]
     else:
-        worlds = [('T1', 1, 4, 'all'), ('T2', 1, 4, 'all'),
-                  ('T1', 2, 3, 'all'), ('T2', 2, 3, 'all')]
+        worlds = [('T1', 1, 3, 'all'), ('T2', 1, 3, 'all'),
+                  ('T1', 2, 3, 'none'), ('T2', 2, 3, 'none'),
+                  ('T1', 1, 4, 'two')]
     for topo, D, A, evs in worlds:
         for pl in g1.placements(A, 2):
             if all(x is None for x in pl):
@@ -21,7 +22,9 @@ def subharnesses(tier):
                 events += [('server_state', 1, 'down'),
                            ('set_priority', 0), ('set_priority', A - 1),
                            ('replace_server', 0, {})]
-            if tier == 'thorough':
+            if evs == 'two':
+                events += [('server_state', 1, 'down')]
+            if tier == 'thorough' and evs == 'all':
                 events += [('server_state', 0, 'down'), ('set_priority', 1),
                            ('remove_server', 1)]
             for ev in events:
